@@ -65,7 +65,7 @@ def one(args):
                 # the orphan jobs are suspended (SIGSTOP: a debugger, a batch system holding them) when the experiment starts again
                 import signal as _signal
 
-                for l in (log.read_text().splitlines() if log.exists() else []):
+                for l in (log.read_text().split("\n")[:-1] if log.exists() else []):
                     e = json.loads(l)
                     if e["e"] == "begin":
                         try:
@@ -165,7 +165,7 @@ def signal_case(sig):
         t0 = time.time()
         while time.time() - t0 < 60 and pid is None:
             if log.exists():
-                for l in log.read_text().splitlines():
+                for l in log.read_text().split("\n")[:-1]:      # (complete lines only)
                     e = json.loads(l)
                     if e["e"] == "begin" and e["p"] == "x1":
                         pid = e["pid"]
